@@ -23,7 +23,8 @@ Three groups of theorems (all for arbitrary type lists, states, files – nothin
 * merge      – `MergeSources`: declarations, own doc comments (no layout premise since 102a5c2), imports (first occurrence, no duplicates),
                header and package of the first file.
 * facts      – every field of every Generator struct in the CURRENT source is classified, and the
-               classification agrees with where the field is written.
+               classification agrees with where the field is written; every per-type field (all maps, slices, sets) is
+               re-made by an UNCONDITIONAL statement on the path every type takes (`C08_collections_reset`).
 -/
 namespace ShootVerif.C08
 open ShootVerif ShootVerif.Merge ShootVerif.GenState
@@ -324,6 +325,24 @@ theorem C08_leaks_fixed :
     codeToday = noLeaks ∧
     leakFields.all (fun l => Facts.genStateWrites.any (fun w => w.1 = l.1 && w.2.1 = "MakeData" && w.2.2.1 = l.2 && w.2.2.2 = "set")) = true ∧
     classTable.all (fun c => c.2 ≠ Class.carried || c.1 = ("internal/shoot", "GeneratorBase", "overlay")) = true := by
+  decide
+
+/-- per-type state is re-made UNCONDITIONALLY at the start of every type, in the CURRENT source (regenerated tables
+    `Facts.genStateResets`: top-level `g.f = …` statements and top-level `*param = …` statements of a callee that gets `&g.f`;
+    `Facts.genStateCalls`: top-level calls between the methods):
+    (1) every map-, slice- or set-typed field of the four `Generator` structs (22 today) is classified `reset` - none of them
+        is configuration or a cache that may outlive a type;
+    (2) every field classified `reset` (collections, `data`, `hasNew`, `getter`, `setter`) has a reset that is a top-level
+        statement of `MakeData` or of a method `MakeData` reaches through top-level calls only, not preceded by a conditional
+        `return` of that method (three listed exceptions in constructor.parseFields, where the early return is fatal).
+    A reset moved under a condition (`if *tagMap == nil { *tagMap = make(…) }`: made for the first type only), into a loop, or
+    into a method that is called conditionally makes this theorem fail. -/
+theorem C08_collections_reset :
+    (Facts.genStateFields.filter (fun f => f.2.1 = "Generator" && isCollection f.2.2.2)).all
+      (fun f => classify (f.1, f.2.1, f.2.2.1) = some Class.reset) = true ∧
+    (Facts.genStateFields.filter (fun f => f.2.1 = "Generator" && isCollection f.2.2.2)).length = 22 ∧
+    classTable.all (fun c => c.2 ≠ Class.reset ||
+      hasUncondReset Facts.genStateResets Facts.genStateCalls c.1.1 c.1.2.2) = true := by
   decide
 
 /-! ## non-vacuity: concrete inputs -/
